@@ -379,6 +379,9 @@ impl Check for C17 {
                 );
             }
         }
+        if abs.is_some() || rel.is_some() || restricted || h.keys.len() > 1 {
+            rep.nontrivial_by(&rep.desc.clone());
+        }
         // ---- (4) sizes
         let announced_w = plan.witness_size();
         let announced_s = plan.scriptsig_size();
@@ -393,9 +396,6 @@ impl Check for C17 {
         }
         if abs.is_some() || rel.is_some() {
             rep.class("uses-lock");
-        }
-        if abs.is_some() || rel.is_some() || restricted || h.keys.len() > 1 {
-            rep.nontrivial_by(&rep.desc.clone());
         }
         Ok(())
     }
